@@ -39,6 +39,9 @@ type Machine[S comparable] struct {
 	// through the callee's body from the current state and continues after the call with the states reached at
 	// the callee's returns (helper functions extracted from the function under analysis).
 	Inline func(callee *ssa.Function, site ssa.CallInstruction) bool
+	// Visit, when set, sees every instruction in every state it is reached in - also the call instructions that are
+	// then analysed in place (Step is not called for those).
+	Visit func(ctx *Ctx[S], s S, in ssa.Instruction)
 
 	parent   map[Node[S]]Node[S]
 	Findings []Finding[S]
@@ -150,6 +153,9 @@ func (m *Machine[S]) Run() {
 		for _, in := range n.B.Instrs {
 			var next []S
 			for _, s := range states {
+				if m.Visit != nil {
+					m.Visit(ctx, s, in)
+				}
 				if out, done := m.tryInline(nil, s, in, 0); done {
 					next = append(next, out...)
 					continue
@@ -250,6 +256,9 @@ func (m *Machine[S]) tryInline(up *Frame, s S, in ssa.Instruction, depth int) ([
 			}
 			var next []S
 			for _, st := range states {
+				if m.Visit != nil {
+					m.Visit(ctx, st, x)
+				}
 				if out, done := m.tryInline(fr, st, x, depth+1); done {
 					next = append(next, out...)
 					continue
